@@ -10,7 +10,7 @@ from . import proggen as G
 NAMES = f"{C.LEAN}/Az65/Gen/Names.lean"
 
 DEGENERATE = [
-    "@defn X, X\n@db X\n", "@defn A, B\n@defn B, A\n@db A\n", "@defl A, B + 1\n@defl B, C + 1\n@defl C, A + 1\n@dw A\n",
+    "@defn X, X\n@db X\n", "@defn W, H+1\n@defn H, W+1\n@defn CELL, W\n@db CELL\n", "@defl A1, B1\n@defl B1, C1\n@defl C1, B1\n@defn D1, A1 + 1\n@dw D1\n", "@dw Q1\n@defl Q1, R1\n@defl R1, S1 + R1\n@defn S1, 1\n", "@defn A, B\n@defn B, A\n@db A\n", "@defl A, B + 1\n@defl B, C + 1\n@defl C, A + 1\n@dw A\n",
     "@db 1 / 0\n", "@db 1 % 0\n", "@db $80000000 % -1\n", "@db $80000000 % $ffffffff\n", "@dw (0 - $7fffffff - 1) % (0 - 1)\n", "@db X % Y\n@defn X, $80000000\n@defn Y, -1\n",
     "@db X / Y\n@defn X, $80000000\n@defn Y, -1\n", "@db $80000000 * -1\n", "@db -$80000000\n", "@db $7fffffff + 1\n", "@db 0 - $80000000\n", "@db 1 << 32\n", "@db 1 << -1\n", "@db 1 >> 99\n", "@db 1 >>> -5\n",
     '@segment "DATA"\n', '@segment "code "\n', "@segment 5\n", "@segment lab\n", '@segment ""\n', "@dw X / Y\n@defn X, 5\n@defn Y, 0\n", "@db -($80000000)\n", "@dw $80000000 / -1\n",
@@ -127,6 +127,15 @@ def run(tier, seed):
     for a in addr_forms:
         for b in addr_forms:
             cases.append(("6502", f'@segment "ADDR"\n{a}\n{b}\n@segment "CODE"\n@db 1\n@defl fwd, 5\n'.encode(), "", "addr-segment"))
+    # a deferred operand as the very last byte(s) of the image, for every operand form
+    for arch in ("6502", "z80", "sm83"):
+        for tmpl, pieces in G.INSTRS[arch]:
+            nops = 1 + max([p[1] for p in pieces if not isinstance(p, int)], default=-1)
+            if nops == 0:
+                continue
+            cases.append((arch, ("  nop\n  " + tmpl.format(*(["lastfwd"] * nops)) + "\n@defn lastfwd, 5\n").encode(), "", "deferred-last"))
+    for f in ("ldh (lastfwd), a", "ldh a, (lastfwd)", "ld (lastfwd), a", "ld a, (lastfwd)", "jr lastfwd", "ld hl, lastfwd", "add sp, lastfwd"):
+        cases.append(("sm83", (f"  nop\n  {f}\n@defn lastfwd, $ff05\n").encode(), "", "deferred-last"))
     faults = ["@endif\n", "@endmacro\n", "@endeach\n", "@endstruct\n", "}\n", "{\n", "@if 0\n", "@defn Z, Z\n", "@db 1/0\n", "Q: Q:\n", '@meta "@SIZEOF" "x"\n', "@each T, {\n", "@struct\n", "\\\n"]
     for _ in range(3000 if tier == "quick" else 60000):
         arch = rng.choice(["6502", "z80", "sm83"])
